@@ -92,3 +92,22 @@ class AbsArray:
 
 class AbsReportList:
     """The report list built for one collection event (ghost g_ceid: for which event)."""
+
+
+class AbsStateEvents:
+    """The EventProducer of one State object as the state machine engine uses it: fire(event, data) calls the registered
+    handlers (user code).  Ghost: g_owner (the state it belongs to), counted in the state's g_enter / g_leave fields.
+    The body is the NATIVE reading used in replays (a recording producer without handlers); the engine never reads it."""
+
+    def fire(self, event, data):
+        if event == "enter":
+            self.g_owner.g_enter += 1
+        if event == "leave":
+            self.g_owner.g_leave += 1
+
+
+class AbsTransitionEvents:
+    """The EventProducer of one Transition object.  Ghost: g_called (how often 'called' was fired)."""
+
+    def fire(self, event, data):
+        raise NotImplementedError("external")
